@@ -876,37 +876,173 @@ def arr_atom(a):
                                                                      for x in a.ravel())
 
 
+# ---- exact values and the fine-step ladder (round 2: approximate / lossy cache keys) --------------------
+
+def qnum(x):
+    """A double as the exact rational it is (`n` or `(q n d)`, reduced, d a power of two): never text, never rounded."""
+    x = float(x)
+    if x != x:
+        return "nan"
+    if x in (float("inf"), float("-inf")):
+        return "inf" if x > 0 else "minf"
+    n, d = x.as_integer_ratio()
+    return n if d == 1 else ["q", n, d]
+
+
+def exact_value(*tagged):
+    """Flat list `tag v v v tag v …` of exact rationals (booleans as 0 / 1): one cached value on the wire."""
+    out = []
+    for tag, arr in tagged:
+        out.append(tag)
+        a = np.asarray(arr)
+        out.append("s" + "x".join(str(k) for k in a.shape))
+        out.extend(qnum(v) for v in a.astype(float).ravel())
+    return out
+
+
+MAGS = {"one": 3.0, "e5": 1e5, "jd": 2459000.5, "e9": 1e9, "em6": 1e-6, "njd": -2459000.5, "zero": 0.0,
+        "half": 0.5, "e15": 1e15, "none": -3.0}
+REL_STEPS = ["ulp", "r1e-12", "r1e-9", "r1e-7", "r1e-5", "r1e-3"]
+ABS_STEPS = ["a1e-8", "a1e-12", "a1e-300"]
+SEQ_K = [0, 1, 2, 0, -1]      # request k uses `base + k * step`: up, further up (drift), back (exact old key), down
+
+
+def step_size(v, step):
+    """Size of one `step` at the value v: the smallest representable step, a relative size, or an absolute one."""
+    v = float(v)
+    if step == "ulp":
+        return float(abs(np.nextafter(v, np.inf) - v)) if v >= 0 else float(abs(v - np.nextafter(v, -np.inf)))
+    if step[0] == "r":
+        return abs(v) * float(step[1:])
+    return float(step[1:])
+
+
+def stepped(v, step, k):
+    """`v + k * step`, guaranteed to be a different double from v for k != 0."""
+    v = float(v)
+    if k == 0:
+        return v
+    w = v + k * step_size(v, step)
+    if w == v:
+        for _ in range(abs(k)):
+            w = float(np.nextafter(w, np.inf if k > 0 else -np.inf))
+    return w
+
+
+def distinct_answers(po):
+    """Were the requests of the case distinguishable at all (a stale hit is observable only then)?"""
+    try:
+        return len({sx(v) for v in po}) > 1
+    except Exception:  # noqa
+        return False
+
+
 class FloodFill(Family):
     """`FloodFillSubsetState._mask_cache`: (hash, mask).  Requests after perturbing each input in turn (data
     values through update_components / update_values_from_data, threshold, start_coords, attribute); compared
-    with a freshly constructed state; the key is `state._hash` as the code builds it."""
+    with a freshly constructed state; the key is `state._hash` as the code builds it.
+
+    Coarse stratum: all perturbation sequences (O(1) steps, plus *objects*: an attribute with the same label and
+    other values, start coordinates that are value-equal but other objects (numpy integers), start coordinates
+    with equal hash and different value (`hash(-1) == hash(-2)` in CPython)).
+    Fine stratum `['fine', tmag, vmag, step, field]`: the threshold (magnitudes 1 + 1e-6 … 1e9) or one data value
+    moved by the step ladder (1 ulp, 1e-12 … 1e-3 relative, absolute 1e-8 …) on data whose pixels sit exactly on
+    the bounds `value * threshold_k`, so that every step changes the region."""
     name = "flood"
     exhaustive = True
-    budget_share = 0.4
+    budget_share = 0.5
     max_jobs = 2
     batch = 100
 
-    PERTS = ["values", "values2", "threshold", "start", "att", "refresh", "nothing", "copy"]
+    PERTS = ["values", "values2", "threshold", "start", "att", "refresh", "nothing", "copy",
+             "att_twin", "start_np", "start_neg"]
+    TMAGS = {"one": 1.25, "near1": 1.000001, "two": 2.0, "e5": 1e5, "jd": 2459000.5, "e9": 1e9}
+    VMAGS = {"one": 1.0, "three": 3.0, "jd": 2459000.5, "em6": 1e-6, "e9": 1e9}
 
     def cases(self, tier, rng):
         L = 3 if tier == "quick" else 4
+        base = self.PERTS[:8]
+        extra = self.PERTS[8:]
         for n in range(1, L + 1):
-            for seq in itertools.product(self.PERTS, repeat=n):
+            for seq in itertools.product(base, repeat=n):
                 yield list(seq)
+        # the object-identity perturbations: every sequence <= 2 over all perturbations that uses one of them, and
+        # length 3 with the new one in the middle
+        for n in (1, 2, 3):
+            for seq in itertools.product(self.PERTS, repeat=n):
+                if not any(p in extra for p in seq):
+                    continue
+                if "att_twin" in seq and "refresh" in seq:     # update_values_from_data refuses duplicate labels
+                    continue
+                if n == 3 and (seq[1] not in extra or seq[0] in extra or seq[2] in extra) and tier == "quick":
+                    continue
+                yield list(seq)
+        vm = ["one", "jd"] if tier == "quick" else list(self.VMAGS)
+        for tmag in self.TMAGS:
+            for vmag in vm:
+                for step in REL_STEPS + (ABS_STEPS[:2] if tmag in ("one", "near1") else []):
+                    for field in ("threshold", "value"):
+                        if field == "value" and tmag not in ("one", "jd") and tier == "quick":
+                            continue
+                        yield ["fine", tmag, vmag, step, field]
 
     def reset(self):
         B.clear_memo()
         Registry().clear()
 
-    def run_impl(self, case):
-        x0 = np.array([[1.0, 1, 5], [1, 5, 5], [5, 5, 5]])
-        d = Data(x=x0.copy(), y=x0.T.copy() + 1, label="F")
+    def run_fine(self, case):
+        _, tmag, vmag, step, field = case
+        t0, v = self.TMAGS[tmag], self.VMAGS[vmag]
+        if field == "threshold":
+            ts = [stepped(t0, step, k) for k in SEQ_K]
+            bounds = sorted({v * t for t in ts})              # the products the code forms (`value * threshold`)
+            us = [None] * len(SEQ_K)
+        else:
+            ts = [t0] * len(SEQ_K)
+            b0 = v * t0
+            us = [stepped(b0, step, k - 1) for k in SEQ_K]    # one pixel moved across the bound `value * threshold`
+            bounds = [b0]
+        far = abs(v) * max(ts) * 4 + 1
+        # row 0: the start pixel, then pixels sitting exactly on every bound (ascending: the region is a prefix)
+        chain = [v] + ([us[0]] if us[0] is not None else []) + bounds + [far]
+        x0 = np.array([chain, [far] * len(chain)], dtype=float)
+        d = Data(x=x0.copy(), label="F")
         sub = d.new_subset()
-        st = S.FloodFillSubsetState(d, d.id["x"], (0, 0), 1.2)
+        st = S.FloodFillSubsetState(d, d.id["x"], (0, 0), ts[0])
         sub.subset_state = st
         self._keep = [d, sub, st]
         keys, outs, fresh = [], [], []
-        vals = [np.array([[1.0, 5, 5], [5, 5, 5], [5, 5, 5]]), np.array([[1.0, 1, 1], [1, 1, 5], [5, 5, 5]])]
+        for k in range(len(SEQ_K)):
+            cur = sub.subset_state
+            if k > 0:
+                if field == "threshold":
+                    cur.threshold = ts[k]
+                else:
+                    x1 = np.array(d["x"], dtype=float)
+                    x1[0, 1] = us[k]
+                    d.update_components({d.id["x"]: x1})
+            outs.append(exact_value(("m", sub.to_mask())))
+            keys.append(cur._mask_cache[0])
+            f = S.FloodFillSubsetState(cur.data, cur.att, cur.start_coords, cur.threshold)
+            fresh.append(exact_value(("m", f.to_mask(d))))
+            self._keep.append(f)
+        self._last = (canon_ids(keys), fresh)
+        return outs
+
+    def run_impl(self, case):
+        if case and case[0] == "fine":
+            return self.run_fine(case)
+        x0 = np.array([[1.0, 1, 5], [1, 5, 5], [5, 5, 1]])
+        d = Data(x=x0.copy(), y=x0.T.copy() + 1, label="F")
+        # a second attribute with the *same label* as x and other values (a key built from labels would merge them)
+        xid = d.main_components[0]
+        twin = d.add_component(np.array([[1.0, 5, 5], [5, 5, 5], [5, 1, 1]]), label="x") if "att_twin" in case else None
+        sub = d.new_subset()
+        st = S.FloodFillSubsetState(d, xid, (0, 0), 1.2)
+        sub.subset_state = st
+        self._keep = [d, sub, st, twin]
+        keys, outs, fresh = [], [], []
+        vals = [np.array([[1.0, 5, 5], [5, 5, 5], [5, 5, 1]]), np.array([[1.0, 1, 1], [1, 1, 5], [5, 5, 1]])]
 
         def request():
             cur = sub.subset_state
@@ -919,17 +1055,23 @@ class FloodFill(Family):
         for k, p in enumerate(case):
             cur = sub.subset_state
             if p == "values":
-                d.update_components({d.id["x"]: vals[0] if not np.array_equal(d["x"], vals[0]) else x0})
+                d.update_components({xid: vals[0] if not np.array_equal(d[xid], vals[0]) else x0})
             elif p == "values2":
                 d.update_components({d.id["y"]: d["y"] + 1})
             elif p == "threshold":
                 cur.threshold = 5.5 if cur.threshold != 5.5 else 1.2
             elif p == "start":
-                cur.start_coords = (2, 2) if cur.start_coords != (2, 2) else (0, 0)
+                cur.start_coords = (2, 2) if tuple(cur.start_coords) != (2, 2) else (0, 0)
             elif p == "att":
-                cur.att = d.id["y"] if cur.att is d.id["x"] else d.id["x"]
+                cur.att = d.id["y"] if cur.att is not d.id["y"] else xid
+            elif p == "att_twin":
+                cur.att = twin if cur.att is not twin else xid
+            elif p == "start_np":     # value-equal, other objects / types
+                cur.start_coords = tuple(np.int64(c) if not isinstance(c, np.integer) else int(c) for c in cur.start_coords)
+            elif p == "start_neg":    # hash((-1, -1)) == hash((-2, -2)): pixels (2, 2) and (1, 1)
+                cur.start_coords = (-2, -2) if tuple(cur.start_coords) == (-1, -1) else (-1, -1)
             elif p == "refresh":
-                o = Data(x=vals[1] if not np.array_equal(d["x"], vals[1]) else x0, y=np.asarray(d["y"]).copy(), label="F")
+                o = Data(x=vals[1] if not np.array_equal(d[xid], vals[1]) else x0, y=np.asarray(d["y"]).copy(), label="F")
                 self._keep.append(o)
                 d.update_values_from_data(o)
             elif p == "copy":
@@ -939,13 +1081,21 @@ class FloodFill(Family):
         return outs
 
     def line(self, case, pyout):
-        ids, fresh = self._last if getattr(self, "_last", None) else ([0] * (len(case) + 1), ["x"] * (len(case) + 1))
+        n = len(SEQ_K) if case and case[0] == "fine" else len(case) + 1
+        ids, fresh = self._last if getattr(self, "_last", None) else ([0] * n, ["x"] * n)
         return sx(["slot", [ids, fresh], pyout])
 
+    def nontrivial(self, case, po):
+        return distinct_answers(po) if case and case[0] == "fine" else True
+
     def signature(self, case, pyout, res):
+        if case and case[0] == "fine":
+            return {"cache": "floodfill", "fine": case[4], "step": case[3]}
         return {"cache": "floodfill", "perts": sorted(set(case))}
 
     def shrink(self, case):
+        if case and case[0] == "fine":
+            return
         for i in range(len(case)):
             yield case[:i] + case[i + 1:]
 
@@ -953,49 +1103,80 @@ class FloodFill(Family):
 class HistogramLayer(Family):
     """`HistogramLayerState._histogram_cache` inside a real histogram viewer state with a layer artist on Agg
     axes attached to the hub (the artist resets the layer cache on data / subset messages).  Every input
-    perturbed in turn; compared with a freshly constructed layer state; the key is the one stored in the cache."""
+    perturbed in turn; compared with a freshly constructed layer state; the key is the one stored in the cache.
+    Edges and counts travel as exact rationals (one ulp in one edge is a different answer).
+
+    Coarse stratum: all perturbation sequences with O(1) steps, plus *objects*: an attribute with the same label
+    and other values, limits / bin numbers that are value-equal but of another type (numpy scalars), limits with
+    equal hash and different value (`hash(-1.0) == hash(-2.0)`), a non-integer bin number (both a fresh state and
+    the cache must refuse it).
+    Fine stratum `[layer, 'fine', mag, step, win, field, log]`: limits at the magnitudes O(1), 1e5, 2459000.5
+    (Julian dates), 1e9, 1e-6, negative, 0, moved by the step ladder (1 ulp, 1e-12 … 1e-3 relative; absolute
+    1e-8 … at 0) up, further up, back and down — through `hist_x_min`, `hist_x_max`, both (a pan: the width stays)
+    and `x_min / x_max + update_bins_to_view` — in a window that is either a zoom of 16 steps or wide (|M| / 4),
+    on data that has a point on every limit used and between any two of them: each step changes edges *and*
+    counts."""
     name = "hlayer"
     exhaustive = True
-    budget_share = 0.6
-    max_jobs = 2
-    batch = 60
+    budget_share = 1.2
+    max_jobs = 4
+    batch = 40
 
     PERTS = ["x_att", "x_log", "hist_x_min", "hist_x_max", "hist_n_bin", "values", "subset_state", "subset_edit",
-             "nothing", "normalize"]
+             "nothing", "normalize", "x_att_twin", "retype", "hash_min", "n_bin_frac"]
 
     def cases(self, tier, rng):
         L = 2 if tier == "quick" else 3
+        old, extra = self.PERTS[:10], self.PERTS[10:]
         for layer in ("data", "subset"):
             for n in range(1, L + 1):
                 for seq in itertools.product(self.PERTS, repeat=n):
                     if layer == "data" and any(p.startswith("subset") for p in seq):
                         continue
+                    if n == 3 and any(p in extra for p in (seq[0], seq[2])):
+                        continue      # length 3: the object perturbations only in the middle
                     yield [layer] + list(seq)
+        thorough = tier == "thorough"
+        mags = ["one", "e5", "jd", "e9", "em6", "njd"] + (["half", "e15", "none"] if thorough else [])
+        for mag in mags + ["zero"]:
+            steps = REL_STEPS if mag != "zero" else ABS_STEPS
+            for step in steps:
+                for win in ("zoom", "wide"):
+                    for field in ("min", "max", "both", "view"):
+                        yield ["data", "fine", mag, step, win, field, False]
+                        if (mag in ("jd", "one") and win == "zoom" and field in ("max", "view")) or thorough:
+                            yield ["subset", "fine", mag, step, win, field, False]
+                        if MAGS[mag] > 0 and field in ("min", "max") and (thorough or (mag in ("jd", "one") and win == "zoom")):
+                            yield ["data", "fine", mag, step, win, field, True]
 
     def reset(self):
         B.clear_memo()
         Registry().clear()
 
-    def run_impl(self, case):
-        from glue.viewers.histogram.state import HistogramViewerState, HistogramLayerState
+    # -- the part shared by both strata: a real viewer state + layer artist on Agg axes, subscribed to the hub
+
+    def world(self, xvals, layer_kind, cut, twin=False):
+        from glue.viewers.histogram.state import HistogramViewerState
         from glue.viewers.histogram.layer_artist import HistogramLayerArtist
         from glue.core.message import NumericalDataChangedMessage, SubsetUpdateMessage
         from glue.core.hub import HubListener
         import matplotlib
         matplotlib.use("Agg")
         from matplotlib.figure import Figure
-        d = Data(x=np.array([1.0, 2, 2, 3, 4, 6]), y=np.array([2.0, 2, 3, 5, 5, 7]), label="H")
+        xvals = np.asarray(xvals, dtype=float)
+        d = Data(x=xvals, y=np.array(([2.0, 2, 3, 5, 5, 7] * len(xvals))[:len(xvals)]), label="H")
+        xid = d.main_components[0]
+        tw = d.add_component(np.roll(xvals, 1) + 1, label="x") if twin else None
         dc = DataCollection([d])
-        sub = dc.new_subset_group(subset_state=d.id["x"] > 1.5).subsets[0]
-        layer = d if case[0] == "data" else sub
+        sub = dc.new_subset_group(subset_state=xid > cut).subsets[0]
+        layer = d if layer_kind == "data" else sub
         vs = HistogramViewerState()
         fig = Figure()
         ax = fig.add_subplot(1, 1, 1)
         art = HistogramLayerArtist(ax, vs, layer=layer)
         ls = art.state
         vs.layers.append(ls)
-        vs.x_att = d.id["x"]
-        vs.hist_x_min, vs.hist_x_max, vs.hist_n_bin = 0.5, 8.5, 8
+        vs.x_att = xid
 
         class L(HubListener):
             """What the viewer does: on data / subset changes the layer artist is updated."""
@@ -1004,17 +1185,21 @@ class HistogramLayer(Family):
                 hub.subscribe(self, NumericalDataChangedMessage, handler=lambda m: art.update())
                 hub.subscribe(self, SubsetUpdateMessage, handler=lambda m: art.update())
         lst = L(dc.hub)
-        self._keep = [d, dc, sub, vs, fig, art, lst]
+        self._keep = [d, dc, sub, vs, fig, art, lst, tw]
+        return d, xid, tw, sub, layer, vs, ls
+
+    def requester(self, layer, vs, ls):
+        from glue.viewers.histogram.state import HistogramLayerState
         keys, outs, fresh, resets = [], [], [], []
 
         def cached_level(state):
-            """What the cache holds (edges, unscaled counts); `histogram` scales it afterwards on every call."""
+            """What the cache holds (edges, unscaled counts), exactly; `histogram` scales it afterwards on every call."""
             try:
                 state.histogram          # the public entry point (fills / reuses the cache)
                 e, h = state._histogram_cache[1]
-                return arr_atom(np.concatenate([np.round(np.asarray(e, dtype=float) * 1024), np.round(np.asarray(h, dtype=float) * 1024)]))
+                return exact_value(("e", e), ("h", h))
             except Exception as ex:  # noqa
-                return "exc-" + type(ex).__name__
+                return ["exc-" + type(ex).__name__]
 
         prev = [None]
 
@@ -1023,13 +1208,68 @@ class HistogramLayer(Family):
             resets.append(ls._histogram_cache is not prev[0])
             outs.append(cached_level(ls))
             prev[0] = ls._histogram_cache
-            keys.append(ls._histogram_cache[0] if ls._histogram_cache is not None else None)
+            if outs[-1][0].startswith("exc-"):
+                keys.append(object())    # the code refused the request before storing anything: a key of its own
+            else:
+                keys.append(ls._histogram_cache[0] if ls._histogram_cache is not None else None)
             f = HistogramLayerState(layer=layer, viewer_state=vs)
             fresh.append(cached_level(f))
+        return request, keys, outs, fresh, resets
+
+    def run_fine(self, case):
+        from echo import delay_callback
+        layer_kind, _, mag, step, win, field, log = case
+        M = MAGS[mag]
+        s0 = step_size(M, step)
+        W = 16 * s0 if win == "zoom" else (abs(M) / 4 if M != 0 else 1.0)
+        lo0, hi0 = M, M + W
+        los = [stepped(lo0, step, k) if field in ("min", "both") else lo0 for k in SEQ_K]
+        his = [stepped(hi0, step, k) if field in ("max", "view") else hi0 for k in SEQ_K]
+        if field == "both":      # a pan: both limits shifted by the same amount, set together (the width stays)
+            his = [hi0 + (l - lo0) if hi0 + (l - lo0) != hi0 or l == lo0 else stepped(hi0, step, k) for l, k in zip(los, SEQ_K)]
+        # data: a point on every limit that is used, between any two neighbouring ones, inside and outside
+        marks = sorted(set(los + his))
+        pts = set(marks)
+        for a_, b_ in zip(marks[:-1], marks[1:]):
+            pts.add(a_ + (b_ - a_) / 2)
+        for fr in (1 / 3, 1 / 2, 15 / 16):
+            pts.add(lo0 + W * fr)
+        pts.add(marks[0] - (marks[1] - marks[0]))
+        pts.add(marks[-1] + (marks[-1] - marks[-2]))
+        d, xid, tw, sub, layer, vs, ls = self.world(sorted(pts), layer_kind, lo0 + W / 4)
+        if log:
+            vs.x_log = True
+        vs.hist_x_min, vs.hist_x_max, vs.hist_n_bin = los[0], his[0], 8
+        request, keys, outs, fresh, resets = self.requester(layer, vs, ls)
+        request()
+        for k in range(1, len(SEQ_K)):
+            if field == "view":
+                vs.x_min, vs.x_max = los[k], his[k]
+                vs.update_bins_to_view()
+            elif field == "both":
+                with delay_callback(vs, "hist_x_min", "hist_x_max"):
+                    vs.hist_x_min, vs.hist_x_max = los[k], his[k]
+            elif field == "min":
+                vs.hist_x_min = los[k]
+            else:
+                vs.hist_x_max = his[k]
+            request()
+        self._last = (canon_ids(keys, resets), fresh)
+        return outs
+
+    def run_impl(self, case):
+        if len(case) > 1 and case[1] == "fine":
+            return self.run_fine(case)
+        d, xid, tw, sub, layer, vs, ls = self.world([1.0, 2, 2, 3, 4, 6, -1.5], case[0], 1.5, twin="x_att_twin" in case)
+        vs.hist_x_min, vs.hist_x_max, vs.hist_n_bin = 0.5, 8.5, 8
+        request, keys, outs, fresh, resets = self.requester(layer, vs, ls)
         request()
         for p in case[1:]:
             if p == "x_att":
-                vs.x_att = d.id["y"] if vs.x_att is d.id["x"] else d.id["x"]
+                vs.x_att = d.id["y"] if vs.x_att is not d.id["y"] else xid
+                vs.hist_x_min, vs.hist_x_max, vs.hist_n_bin = 0.5, 8.5, 8
+            elif p == "x_att_twin":      # another attribute with the same label (and the same limits / bins)
+                vs.x_att = tw if vs.x_att is not tw else xid
                 vs.hist_x_min, vs.hist_x_max, vs.hist_n_bin = 0.5, 8.5, 8
             elif p == "x_log":
                 vs.x_log = not vs.x_log
@@ -1038,12 +1278,23 @@ class HistogramLayer(Family):
                 vs.hist_x_min = 1.5 if vs.hist_x_min != 1.5 else 0.5
             elif p == "hist_x_max":
                 vs.hist_x_max = 6.5 if vs.hist_x_max != 6.5 else 8.5
+            elif p == "hash_min":        # hash(-1.0) == hash(-2.0) in CPython
+                vs.hist_x_min = -2.0 if vs.hist_x_min == -1.0 else -1.0
             elif p == "hist_n_bin":
                 vs.hist_n_bin = 4 if vs.hist_n_bin != 4 else 8
+            elif p == "n_bin_frac":      # not an integer: a fresh state refuses it, so must this one
+                vs.hist_n_bin = 8.5 if vs.hist_n_bin != 8.5 else 8
+            elif p == "retype":          # value-equal, other objects / types
+                if isinstance(vs.hist_x_max, np.floating):
+                    vs.hist_x_min, vs.hist_x_max = float(vs.hist_x_min), float(vs.hist_x_max)
+                else:
+                    vs.hist_x_min, vs.hist_x_max = np.float64(vs.hist_x_min), np.float64(vs.hist_x_max)
+                if vs.hist_n_bin == int(vs.hist_n_bin):
+                    vs.hist_n_bin = int(vs.hist_n_bin) if isinstance(vs.hist_n_bin, np.integer) else np.int64(vs.hist_n_bin)
             elif p == "values":
-                d.update_components({d.id["x"]: np.roll(d["x"], 1) + (1 if d["x"][0] < 5 else -1)})
+                d.update_components({xid: np.roll(d[xid], 1) + (1 if d[xid][0] < 5 else -1)})
             elif p == "subset_state":
-                sub.subset_state = (d.id["x"] > 2.5) if "2.5" not in str(sub.subset_state) else (d.id["x"] > 1.5)
+                sub.subset_state = (xid > 2.5) if "2.5" not in str(sub.subset_state) else (xid > 1.5)
             elif p == "subset_edit":
                 st = sub.subset_state
                 st.right = 3.5 if st.right != 3.5 else 1.5
@@ -1055,46 +1306,131 @@ class HistogramLayer(Family):
         return outs
 
     def line(self, case, pyout):
-        n = len(case)
-        ids, fresh = self._last if getattr(self, "_last", None) else ([0] * n, ["x"] * n)
-        return sx(["slot", [list(range(len(ids))) if False else ids, fresh], pyout])
+        n = len(SEQ_K) if len(case) > 1 and case[1] == "fine" else len(case)
+        ids, fresh = self._last if getattr(self, "_last", None) else ([0] * n, [["x"]] * n)
+        return sx(["slot", [ids, fresh], pyout])
+
+    def nontrivial(self, case, po):
+        return distinct_answers(po) if len(case) > 1 and case[1] == "fine" else True
 
     def signature(self, case, pyout, res):
+        if len(case) > 1 and case[1] == "fine":
+            return {"cache": "histogram-layer", "fine": case[5], "step": case[3]}
         return {"cache": "histogram-layer", "perts": sorted(set(case[1:]))}
 
     def shrink(self, case):
+        if len(case) > 1 and case[1] == "fine":
+            return
         for i in range(1, len(case)):
             yield case[:i] + case[i + 1:]
 
 
 class AttributeHelpers(Family):
     """`StateAttributeLimitsHelper` / `StateAttributeHistogramHelper` of a real `HistogramViewerState`: a dictionary
-    keyed by the attribute.  Steps: switch the attribute, change the values of an attribute; after every step
-    the limits / bins are compared with those of a freshly constructed viewer state on the same attribute."""
+    keyed by the attribute.  Steps: switch the attribute (also to one with the *same label* and other values),
+    change the values of an attribute; after every step the limits / bins are compared — exactly — with those of
+    a freshly constructed viewer state on the same attribute.
+
+    Fine stratum `['pct', p0, step, sched]`: a `StateAttributeLimitsHelper` with its `percentile` / `log` modifiers
+    (on a plain `State`, as glue's own tests drive it; the viewers' percentile is a fixed choice list).  The
+    percentile is moved by the step ladder (1 ulp, 1e-12 … 1e-3 relative, absolute 1e-8) around 99.5, 95, 50, 3
+    and 1e-6, with attribute switches (the dictionary restores percentile, log *and* limits of the attribute)
+    and log toggles in between; the limits must be those a fresh helper computes for the *current* (attribute,
+    percentile, log) — data with a wide dynamic range, so that every step moves the interpolated limits."""
     name = "helper"
     exhaustive = True
     known_findings_uncounted = True     # the listed finding must not crowd out other failures of this family
-    budget_share = 0.4
+    budget_share = 0.6
     max_jobs = 2
     batch = 60
 
-    STEPS = ["x", "y", "z", "vx", "vy", "vz"]
+    STEPS = ["x", "y", "z", "t", "vx", "vy", "vz"]
+    PCTS = {"p995": 99.5, "p95": 95.0, "p50": 50.0, "p3": 3.0, "pem6": 1e-6}
+    SCHEDS = ["plain", "switch", "log"]
 
     def cases(self, tier, rng):
         L = 3 if tier == "quick" else 4
         for n in range(1, L + 1):
             for seq in itertools.product(self.STEPS, repeat=n):
+                if n == 4 and "t" in seq:
+                    continue
                 yield list(seq)
+        for p0 in self.PCTS:
+            for step in REL_STEPS + ABS_STEPS[:1]:
+                for sched in self.SCHEDS:
+                    yield ["pct", p0, step, sched]
 
     def reset(self):
         B.clear_memo()
         Registry().clear()
 
+    def run_pct(self, case):
+        from glue.core.state_objects import State, StateAttributeLimitsHelper
+        from echo import CallbackProperty
+        _, p0, step, sched = case
+        ks = np.arange(-12, 13)
+        xv = np.sign(ks) * 10.0 ** (np.abs(ks) / 2.0) + 0.125 * ks          # wide dynamic range, both signs
+        yv = (ks + 13.0) ** 3 / 7.0                                            # positive (for log), uneven
+        d = Data(x=xv, y=yv, label="P")
+        comps = [d.id["x"], d.id["y"]]
+
+        class PState(State):
+            comp = CallbackProperty()
+            lower = CallbackProperty()
+            upper = CallbackProperty()
+            log = CallbackProperty(False)
+            percentile = CallbackProperty(100)
+
+        def mk():
+            st = PState()
+            h = StateAttributeLimitsHelper(st, attribute="comp", lower="lower", upper="upper",
+                                           percentile="percentile", log="log")
+            return st, h
+        st, h = mk()
+        st.comp = comps[0]
+        self._keep = [d, st, h]
+        keys, outs, fresh, seen = [], [], [], []
+
+        def request():
+            cur = (comps.index(st.comp), qnum(st.percentile), bool(st.log))
+            if cur not in seen:
+                seen.append(cur)
+            keys.append(seen.index(cur))     # the exact inputs: attribute, percentile (bit pattern), log
+            outs.append(exact_value(("lim", [st.lower, st.upper])))
+            f, fh = mk()
+            f.comp = st.comp
+            f.log = st.log
+            f.percentile = st.percentile
+            self._keep.append((f, fh))
+            fresh.append(exact_value(("lim", [f.lower, f.upper])))
+        pv = self.PCTS[p0]
+        st.percentile = pv
+        request()
+        for k in SEQ_K[1:]:
+            if sched == "switch":        # leave the attribute and come back: the dictionary restores the entry
+                st.comp = comps[1]
+                request()
+                st.comp = comps[0]
+                request()
+            elif sched == "log":
+                st.comp = comps[1]
+                st.log = not st.log
+                request()
+            st.percentile = min(100.0, stepped(pv, step, k))
+            request()
+        self._last = (keys, fresh)
+        return outs
+
     def run_impl(self, case):
+        if case and case[0] == "pct":
+            return self.run_pct(case)
         from glue.viewers.histogram.state import HistogramViewerState, HistogramLayerState
         d = Data(x=np.array([1.0, 2, 2, 3, 4, 6]), y=np.array([2.0, 2, 3, 5, 5, 7]), z=np.array([10.0, 20, 30, 40, 50, 60]), label="H")
+        names = ["x", "y", "z", "t"]
+        comps = list(d.main_components)
+        if "t" in case:      # a fourth attribute with the same label as the first (a key built from labels merges them)
+            comps.append(d.add_component(np.array([-3.0, 0, 2, 9, 11, 12]), label="x"))
         dc = DataCollection([d])
-        names = ["x", "y", "z"]
 
         def mk(att):
             vs = HistogramViewerState()
@@ -1104,8 +1440,8 @@ class AttributeHelpers(Family):
             return vs, ls
 
         def out(vs):
-            return arr_atom(np.round(np.array([vs.x_min, vs.x_max, vs.hist_x_min, vs.hist_x_max, vs.hist_n_bin], dtype=float) * 1024))
-        vs, ls = mk(d.id["x"])
+            return exact_value(("lim", [vs.x_min, vs.x_max, vs.hist_x_min, vs.hist_x_max, vs.hist_n_bin]))
+        vs, ls = mk(comps[0])
         self._keep = [d, dc, vs, ls]
         keys, outs, fresh = [], [], []
 
@@ -1113,7 +1449,7 @@ class AttributeHelpers(Family):
             cur = vs.x_att
             # the key the helpers use is the component id itself
             assert cur in vs.x_lim_helper._cache and cur in vs.hist_helper._cache
-            keys.append(names.index(cur.label))
+            keys.append([c is cur for c in comps].index(True))
             outs.append(out(vs))
             f, fl = mk(cur)
             self._keep.append((f, fl))
@@ -1121,30 +1457,37 @@ class AttributeHelpers(Family):
         request()
         for p in case:
             if p in names:
-                vs.x_att = d.id[p]
+                vs.x_att = comps[names.index(p)]
             else:
-                n = p[1]
-                d.update_components({d.id[n]: np.asarray(d[n]) * 2 + 1})
+                c = comps[names.index(p[1])]
+                d.update_components({c: np.asarray(d[c]) * 2 + 1})
             request()
         self._last = (keys, fresh)
         return outs
 
     def line(self, case, pyout):
-        n = len(case) + 1
-        ids, fresh = self._last if getattr(self, "_last", None) else ([0] * n, ["x"] * n)
+        ids, fresh = self._last if getattr(self, "_last", None) else ([0], [["x"]])
         return sx(["dict", [ids, fresh], pyout])
 
+    def nontrivial(self, case, po):
+        return distinct_answers(po) if case and case[0] == "pct" else True
+
     def signature(self, case, pyout, res):
+        if case and case[0] == "pct":
+            return {"cache": "attribute-helper", "fine": "percentile", "step": case[2]}
         return {"cache": "attribute-helper", "values": any(p.startswith("v") for p in case)}
 
     def shrink(self, case):
+        if case and case[0] == "pct":
+            return
         for i in range(len(case)):
             yield case[:i] + case[i + 1:]
 
 
 THEOREMS = ["C05.spec_always_fresh", "C05.fresh_iff_no_stale", "C05.fresh_of_cleanBelow", "C05.impl_fresh_partial",
             "C05.impl_fresh_unseen", "C05.impl_fresh_repaired", "C05.compute_statistic_fresh", "C05.keyed_cache_sound",
-            "C05.keyed_cache_stale", "C05.repairedPolicy_clearsAll", "C05.pinnedPolicy_not_clearsAll",
+            "C05.keyed_cache_stale", "C05.keyed_cache_approx_key_unsound", "C05.keyed_cache_lossy_key_unsound",
+            "C05.keyed_cache_sound_iff", "C05.slotRun_eq_slotRunRel", "C05.allclose_key_stale", "C05.repairedPolicy_clearsAll", "C05.pinnedPolicy_not_clearsAll",
             "C05.stale_child_after_update_components", "C05.stale_old_shape_after_update_values",
             "C05.stale_after_link_removed", "C05.stale_inequality_after_setter", "C05.stale_composite_after_param_edit",
             "C05.stale_roi_moved_under_composite", "C05.stale_multiOr_copy_after_edit"]
@@ -1161,7 +1504,12 @@ PROP = Property(
     rule="exhaustive: every elementary selection class x 9/11 nesting contexts (depth <= 3) x mutation kinds x evaluation "
          "schedules `eval* ; mutate ; eval*` (<= 6); the edit-subset path for all data-side mutations on 1-3-d data; link "
          "add/remove schedules; all perturbation sequences (<= 3/4) of the flood-fill and histogram-layer caches; seeded random "
-         "histories beyond; non-trivial = the history evaluates something and mutates something",
+         "histories beyond; non-trivial = the history evaluates something and mutates something; "
+         "keyed caches (flood, hlayer, helper): besides O(1) steps every numeric key input is moved by 1 ulp, 1e-12, 1e-9, 1e-7, "
+         "1e-5, 1e-3 relative (absolute 1e-8 / 1e-12 / 1e-300 at 0) at the magnitudes O(1), 1e5, 2459000.5, 1e9, 1e-6, negative and 0 "
+         "(up, further up, back, down), object-valued key inputs are replaced by equal-label / value-equal / equal-hash distinct "
+         "objects, answers are compared as exact rationals with a freshly constructed object; fine cases are non-trivial iff the "
+         "requests of the case have at least two different correct answers",
     partial_note="impl_fresh_partial: hypothesis progClean (no stale key reachable at any evaluation) — false exactly on histories "
                  "with in-place parameter edits / setters under memoised evaluated objects (known findings F2b-F2d)",
 )
